@@ -581,6 +581,40 @@ def writer_callers(ctx, master, rule='C09.4'):
                 _check_restore_site(ctx, func, graph, site, sub, rule)
 
 
+def unplacement_callers(ctx, master, rule='C09.4'):
+    """Instances are taken off a server outside a scheduling cycle only by
+    the three routines that deal with the records themselves: remove_server
+    (the API deletes the records of a deleted server; a replaced one gets
+    them restored), restore_placement (re-reads the records right after)
+    and the duplicate repair of restore_placements (deletes them).  Any
+    other caller un-places before the before-snapshot of the next cycle:
+    nothing reports the change and the record stays."""
+    index = ctx.index
+    loader = index.get_class(K.LOADER, 'Loader')
+    allowed = ('Loader.remove_server', 'Loader.restore_placement',
+               'Loader.restore_placements')
+    seen = 0
+    for cls in (loader, master):
+        for func in cls.live_methods():
+            for call in K.calls(func.node):
+                if not K.is_meth(call, 'remove_all', 'remove'):
+                    continue
+                rcv = K.recv_text(call) or ''
+                if K.is_meth(call, 'remove') and not (
+                        'server' in rcv.lower() and call.args and
+                        not rcv.endswith('partitions')):
+                    continue
+                if 'partition' in rcv or 'backend' in rcv:
+                    continue
+                seen += 1
+                ctx.ob(rule, func, call, func.qualname in allowed,
+                       'instances are taken off a server outside a cycle '
+                       'only by %s' % ', '.join(allowed),
+                       construct='un-placement outside a cycle')
+    ctx.require(seen >= 3, 'un-placement calls of the loader (found %d)'
+                % seen, rule=rule)
+
+
 def _reload(ctx):
     """Replacing a server un-places its instances outside a cycle (the next
     publication sees before == None and leaves their records): the
@@ -813,7 +847,59 @@ def _identity_with_placement(ctx):
     acquire_owner(ctx, 'C09.2')
 
 
+def _self_check_repair(ctx):
+    """C09.4: the run-time self check that finds an instance recorded under
+    two servers judges both copies against the model: the copy seen first is
+    compared as it was recorded - the entry of the first-seen map is not
+    overwritten in the iteration that goes on to judge it (after such a
+    store the second test compares the model with the copy just seen, and a
+    stale first copy is never deleted)."""
+    loader = ctx.index.get_class(K.LOADER, 'Loader')
+    func = loader.methods.get('check_placement_integrity')
+    if func is None:
+        return
+    graph, ops = M.record_ops(ctx, func)
+    dels = [n for n, op, _r, _c in ops if op == 'delete']
+    if not dels:
+        return
+    maps = set()
+    for node in graph.nodes:
+        if node.kind == 'stmt' and isinstance(node.ast, ast.Assign) and \
+                isinstance(node.ast.targets[0], ast.Subscript) and \
+                isinstance(node.ast.targets[0].value, ast.Name):
+            maps.add(node.ast.targets[0].value.id)
+    for dnode in dels:
+        loop = K.enclosing_for(graph, dnode)
+        if loop is None:
+            continue
+        # stores into a map the delete condition reads, made in the same
+        # iteration before the delete
+        reads = set()
+        for ctl in graph.nodes:
+            if ctl.kind == 'test' and ctl.ast is not None and \
+                    dnode in K.cut_reach(graph, ctl, cut_node=lambda n,
+                                         lp=loop: n is lp,
+                                         follow_exc=False):
+                reads |= N.mentions(ctl.ast) & maps
+        bad = []
+        for node in K.loop_body_nodes(loop):
+            if node.kind == 'stmt' and isinstance(node.ast, ast.Assign) and \
+                    isinstance(node.ast.targets[0], ast.Subscript) and \
+                    isinstance(node.ast.targets[0].value, ast.Name) and \
+                    node.ast.targets[0].value.id in reads and \
+                    dnode in K.cut_reach(graph, node, cut_node=lambda n,
+                                         lp=loop: n is lp,
+                                         follow_exc=False) - {node}:
+                bad.append(node)
+        ctx.ob('C09.4', func, bad[0] if bad else dnode, not bad,
+               'a copy is judged against the model as it was recorded (the '
+               'map the repair reads is not rewritten earlier in the same '
+               'iteration)', construct='self check judges both copies: %s'
+               % dnode.text(40))
+
+
 def check(ctx):
+    _self_check_repair(ctx)
     master = ctx.index.get_class(K.MASTER, 'Master')
     if ctx.tier == 'thorough':
         _record_owner(ctx)
@@ -823,6 +909,7 @@ def check(ctx):
     _reschedule(ctx, master)
     SM.snapshot_brackets(ctx, 'C09.3')
     _unsnapshotted(ctx, master)
+    unplacement_callers(ctx, master)
     _reload(ctx)
     _removal(ctx, master)
     # shared with C01.8: a server object leaves the model only after its
